@@ -173,6 +173,7 @@ def gen_plan(seed, cfg):
             sp["force_windows"] = {"cffi_recompile": rng.randint(2, 6), "cffi_platform": rng.randint(1, 4),
                                    "compile_evaluate": rng.randint(1, 3)}
         sp.pop("change_points", None)
+    sp["global_points"] = True  # setters of process-global interpreter state are yield points
     plan = {"engine": "T", "run_seed": seed, "hashseed": seed % 8, "n": n, "mode": mode, "problems": problems,
             "threads": threads, "data": data, "sched": sp, "heap": hk,
             "capacity": rng.choice([1, 1, 2, 3, 8, 1 << 20]), "decisions": None}
@@ -411,16 +412,53 @@ def run_plan(plan, cfg=None):
         if not r["probes"].get(probe):
             break  # the victim has fewer than k such lines: every position was covered
         covered += 1
+    pairs = 0
+    if shared and covered:
+        # depth 2: the victim parks at its k1-th access, the partner runs up to ITS k2-th access and
+        # parks, the victim finishes, then the partner - every (k1, k2), both threads as the victim
+        budget = 60
+        for victim in (sw["thread"], 1 - sw["thread"]):
+            sw2 = dict(sw, thread=victim)
+            for k1 in range(1, 13):
+                any_k2 = False
+                for k2 in range(1, 13):
+                    if budget <= 0:
+                        break
+                    rearm_watchdog()
+                    p = copy.deepcopy(plan)
+                    p["park_sweep"] = None
+                    p["decisions"] = None
+                    p["sched"] = _sweep_sched(sw2, k1, k2)
+                    r = _run_once(p, cfg)
+                    budget -= 1
+                    first["steps"] = first.get("steps", 0) + r.get("steps", 0)
+                    if r["verdict"] != "ok":
+                        if r["verdict"] == "violation":
+                            plan.clear()
+                            plan.update(p)
+                        r.setdefault("probes", {})["generation_race_sweeps"] = 1
+                        return r
+                    if r["probes"].get("parked_at_shared_access", 0) < 2:
+                        break  # the partner has fewer than k2 accesses (or the victim fewer than k1)
+                    any_k2 = True
+                    pairs += 1
+                if not any_k2:
+                    break
     first["probes"]["generation_race_sweeps" if shared else "park_sweeps"] = 1
     first["probes"]["shared_access_positions_enumerated" if shared else "park_positions_enumerated"] = covered
+    if pairs:
+        first["probes"]["shared_access_position_pairs_enumerated"] = pairs
     first["shape"] = f"sweep:{first.get('shape')}"
     return first
 
 
-def _sweep_sched(sw, k):
+def _sweep_sched(sw, k, k2=None):
     if sw.get("kind") == "shared":
-        return {"strategy": "pct_shared", "p_hot": 0.0, "p_cold": 0.0, "p_gc": 0.0,
-                "park_at_shared": {str(sw["thread"]): k}, "first": sw["thread"]}
+        pa = {str(sw["thread"]): k}
+        if k2 is not None:
+            pa[str(1 - sw["thread"])] = k2
+        return {"strategy": "pct_shared", "p_hot": 0.0, "p_cold": 0.0, "p_gc": 0.0, "global_points": True,
+                "park_at_shared": pa, "first": sw["thread"]}
     return {"strategy": "pct_writes", "p_hot": 0.0, "p_cold": 0.0, "p_gc": 0.0,
             "park_at": {str(sw["thread"]): k}, "first": sw["thread"]}
 
